@@ -78,7 +78,7 @@ EStart == Has /\ Ev.ev = "start" /\ good /\ Adv /\ Keep /\ StartRun(Ev.mode, Ev.
 IsOp(c, o) == Has /\ Ev.ev = "op" /\ Ev.cls = c /\ Ev.op = o
 IsNoise == Has /\ Ev.ev = "op" /\
              \/ (Ev.cls \in {"cfg", "other"} /\ ~Ev.injected)
-             \/ (Ev.cls = "lock" /\ Ev.op \in {"stat", "open", "read"} /\ Ev.ok)
+             \/ (Ev.cls = "lock" /\ Ev.op \in {"stat", "open", "read", "fsync"} /\ Ev.ok)
              \/ (Ev.cls = "src" /\ Ev.op = "read")
              \/ (Ev.cls = "tmp" /\ Ev.op \in {"unlink", "fsync", "write_orphan"})
 ENoise == good /\ IsNoise /\ Adv /\ Keep /\ Quiet /\ UNCHANGED vars
@@ -137,7 +137,7 @@ TCfgFail ==          \* the configuration cannot be read: main() gives up before
 TReadLockFail ==     \* the lock cannot be stat'ed / opened / read (also: it does not exist): no cached ID
   /\ good /\ p.pc = "readlock" /\ Has /\ Ev.ev = "op" /\ Ev.cls = "lock" /\ Ev.op \in {"stat", "open", "read"} /\ ~Ev.ok
   /\ p' = [p EXCEPT !.pc = "handlers", !.cached = NoRef] /\ Adv /\ Keep /\ UNCHANGED <<fsvars, g>>
-  /\ Say(IF Ev.op \in {"open", "read"} THEN <<{32}>> ELSE <<>>)
+  /\ Say(IF Ev.op \in {"open", "read"} /\ Ev.injected THEN <<{32}>> ELSE <<>>)    \* "not found" is silent
 TDiscoverFail ==     \* the source directory cannot be examined: "Code discovery error" / "No files found"
   /\ good /\ p.pc = "discover" /\ Has /\ Ev.ev = "op" /\ Ev.cls = "other" /\ ~Ev.ok /\ Ev.injected
   /\ FinishInterrupted(XNonZero) /\ Adv /\ Keep /\ Say(IF Ev.raw = "stat" THEN <<{1, 2}, FailCode>> ELSE <<FailCode>>) /\ UNCHANGED fsvars
